@@ -7,9 +7,9 @@ CONSTANTS
  Dev = {"badevent", "status", "readerr", "partial", "dedup"}
  TrimOn = "match"
  Defect = "none"
- MaxFeeds = 4
- MaxDials = 4
- MaxTime = 24
+ MaxFeeds = 3
+ MaxDials = 3
+ MaxTime = 14
  MaxSubs = 1
  FeedSet <- FramesLife
  DialSet <- DialAll
